@@ -48,4 +48,17 @@ var checks = map[string]check{
 		Rule:   "exhaustive: every option in every accepted/rejected form alone, all ordered pairs of assignments, triples around every prefix-related name pair (computed from the option list), each through CodeUtils.HandleOptions and through args.Targets()+Pack; random: rapid lists of 3-12 assignments; binary: invalid values must fail the thriftgo binary; oracle = fold of the assignments over the documented defaults plus the documented implications; non-trivial = list contains two options where one name is a prefix of the other, or the same option twice with different values, distinct by mode and option list",
 		Assume: []string{"README option table, -h text and the tags of golang.Features are the sources of truth and are cross-checked first", "combinations the README is ambiguous about (with_field_mask without with_reflection, streamx without thrift_streaming, both json tag styles) are not asserted either way", "unknown option names are never generated"},
 	},
+	"C19": {
+		ID: "C19", Pkg: "c19", Tags: "verif", Race: true, MaxPar: 8,
+		Jobs: []job{
+			{Run: "^TestPersistSchedules$", Quick: 500, QShards: 8, Thor: 14300, TShards: 14},
+		},
+		Rule: "n 0..40 jobs, GOMAXPROCS k 1..16, fault set (post-process error / target is a directory / parent or ancestor is a regular file), gate order permutation + pauses, yield script at the verif hook points; non-trivial = n>k and F non-empty with a failing job whose gate opens after a later job's gate, distinct by case JSON",
+		Assume: []string{
+			"distinct absolute paths",
+			"write faults are EISDIR/ENOTDIR shapes (the process runs as root, so permission faults are unavailable)",
+			"ENOSPC/EMFILE/EIO from the machine are not judged",
+			"a watchdog expiry (20 s after the last gate) is reported only if a second run also expires or the first run is still blocked after the second run finished",
+			"schedule-dependent failures may not reproduce on replay; orderings inside the Go runtime are perturbed, not enumerated"},
+	},
 }
